@@ -463,23 +463,31 @@ def r4_jobs_clean(chk: Check):
     # the experiment -> jobs map used for the restriction: built from every xp/*/jobs/*/*
     chk.require("for job in p.glob('jobs/*/*')" in src(f.node), chk.fkey(f, "experiment map"), "the experiment restriction must be built from every experiment index", loc)
     # unfinished experiments prevent clean/kill without --perform
-    from ..dataflow import truth_of
+    # decision table from the "this experiment is unfinished" branch: without --perform a requested kill / clean is switched off, with --perform nothing is
+    baks = [n for n in g.live if n.kind == "test" and rd.canon(n.ast, n) in ("(p / 'jobs.bak').is_dir()", "(p / 'jobs.bak').exists()")]
+    ok = bool(baks)
+    for bt in baks:
+        starts = [m for m, l in bt.succ if l is True]
+        heads = [n for n in g.live if n.kind == "for" and bt.id in g.reachable([m for m, l in n.succ if l == "loop"][0], avoid=[n])]
 
-    def disables(x):
-        names = {t.id for s in x.body if isinstance(s, ast.Assign) and isinstance(s.value, ast.Constant) and s.value.value is False for t in s.targets if isinstance(t, ast.Name)}
-        return {"kill", "clean"} <= names
+        def cl(n):
+            t = src(n.ast)
+            return (t, True) if t in ("perform", "kill", "clean") else None
 
-    ok = False
-    for x in ast.walk(f.node):
-        if isinstance(x, ast.If) and disables(x) and g.nodes_of(x.body[0]):
-            # the test must be true whenever kill or clean is requested without --perform, and never with --perform
-            good = True
-            for perform, kill, clean in itertools.product([False, True], repeat=3):
-                v = truth_of(x.test, lambda t: (t, True) if t in ("perform", "kill", "clean") else None, {"perform": perform, "kill": kill, "clean": clean})
-                if v is None or (v and perform) or (not v and not perform and (kill or clean)):
-                    good = False
-            if good and any(n.kind == "test" and src(n.ast) == "(p / 'jobs.bak').is_dir()" and pol is True for n0 in g.nodes_of(x.body[0]) for n, pol in g.guards(n0)):
-                ok = True
+        def ev(n):
+            if n.kind == "stmt" and isinstance(n.ast, ast.Assign) and isinstance(n.ast.value, ast.Constant) and n.ast.value.value is False:
+                return [t.id for t in n.ast.targets if isinstance(t, ast.Name) and t.id in ("kill", "clean")]
+            if n.kind == "stmt" and isinstance(n.ast, ast.Assign) and any(isinstance(t, ast.Name) and t.id in ("kill", "clean") for t in n.ast.targets):
+                return ["other:" + src(n.ast)]
+            return []
+
+        for perform, kill, clean in itertools.product([False, True], repeat=3):
+            for st in starts:
+                for o in walk_table(g, st, cl, {"perform": perform, "kill": kill, "clean": clean}, ev, lambda n: "next" if n in heads else ("exit" if n is g.exit else None)):
+                    off = set(o.events)
+                    need = set() if perform else {x for x, v in (("kill", kill), ("clean", clean)) if v}
+                    if any(e.startswith("other:") for e in off) or not need <= off or (perform and off) or [u for u in o.unknown if u[2] is None]:
+                        ok = False
     chk.require(ok, chk.fkey(f, "unfinished experiment guard"), "with an unfinished experiment, kill/clean must be disabled unless --perform", loc)
 
 
